@@ -109,3 +109,10 @@ pub broadcast proof fn axiom_maps_str_key_to_value<V>(m: Map<String, V>, k: &str
 { admit(); }
 //@broadcast axiom_contains_str_key
 //@broadcast axiom_maps_str_key_to_value
+
+/// slice::Iter::fold: accepted with the closure's precondition obligation; its value is left
+/// unspecified here (fold semantics are stated where needed as an explicit assumption)
+pub assume_specification<'a, T, B, F: FnMut(B, &'a T) -> B> [core::slice::Iter::<'a, T>::fold] (it: core::slice::Iter<'a, T>, init: B, f: F) -> (r: B)
+    requires
+        forall|b: B, x: &'a T| #[trigger] f.requires((b, x)),
+;
